@@ -795,6 +795,20 @@ vcast_usize_f64(self.nodes_vec.len())
                         assert(hashset@.contains(*src[k]));
                     }
                     assert(self.lists_nodes_of(hashset@, out@));
+                    if self.specs.directed {
+                        assert forall|k: int| 0 <= k < out@.len() implies steps_to(*self, node_name, (#[trigger] out@[k]).name) by {
+                            assert(hashset@.contains(ids[k]) && **out@[k] == *self.nodes_vec@[ids[k] as int]);
+                            assert(self.nodes_map@[self.nodes_vec@[ids[k] as int].name] == ids[k]);
+                        }
+                        assert forall|x: T| steps_to(*self, node_name, x) implies exists|k: int| 0 <= k < out@.len() && (#[trigger] out@[k]).name == x by {
+                            let px = self.nodes_map@[x];
+                            assert(ids.contains(px));
+                            let k = choose|k: int| 0 <= k < ids.len() && ids[k] == px;
+                            assert(**out@[k] == *self.nodes_vec@[px as int]);
+                            assert(out@[k].name == x);
+                        }
+                        assert(one_step_list(*self, node_name, out@));
+                    }
                 }
                 out
             }),
@@ -806,6 +820,8 @@ vcast_usize_f64(self.nodes_vec.len())
         // [C02.adjacency.successor_nodes]
         !self.knows(node_name) ==> is_err_kind(r, ErrorKind::NodeNotFound),
         self.knows(node_name) ==> r.is_ok() && self.lists_nodes_of(self.succ_set(self.nodes_map@[node_name]), r.unwrap()@),
+        // [C02.adjacency.successor_nodes_are_the_one_step_nodes]
+        self.knows(node_name) && self.specs.directed ==> r.is_ok() && one_step_list(*self, node_name, r.unwrap()@),
 //@ end
 
 //@ extract fn src/graph/query.rs _get_predecessor_nodes props=C02,C20 ty=Graph
@@ -879,6 +895,7 @@ vcast_usize_f64(self.nodes_vec.len())
         self.specs.directed && !self.knows(node_name) ==> is_err_kind(r, ErrorKind::NodeNotFound),
         // [C02.adjacency.successor_nodes_public]
         self.specs.directed && self.knows(node_name) ==> r.is_ok() && self.lists_nodes_of(self.succ_set(self.nodes_map@[node_name]), r.unwrap()@),
+        self.specs.directed && self.knows(node_name) ==> one_step_list(*self, node_name, r.unwrap()@),
 //@ end
 
 //@ extract fn src/graph/query.rs get_predecessor_nodes props=C02,C20 ty=Graph
@@ -1152,6 +1169,32 @@ let merged = vchain_sorted_dedup(pred_nodes, succ_nodes);
  });
         proof {
             assert(neighbors_listed(*self, node_index, mv, all_nodes@));
+            if !self.specs.directed {
+                let pr = self.predecessors_vec@[node_index as int]@;
+                let sr = self.successors_vec@[node_index as int]@;
+                assert forall|k: int| 0 <= k < all_nodes@.len() implies steps_to(*self, node_name, (#[trigger] all_nodes@[k]).name) by {
+                    let px = mv[k].node_index;
+                    assert(**all_nodes@[k] == *self.nodes_vec@[px as int]);
+                    assert(self.nodes_map@[self.nodes_vec@[px as int].name] == px);
+                    let j = choose|j: int| (0 <= j < pr.len() && pr[j].node_index == mv[k].node_index) || (0 <= j < sr.len() && sr[j].node_index == mv[k].node_index);
+                    assert(in_row(pr, px) || in_row(sr, px));
+                }
+                assert forall|x: T| steps_to(*self, node_name, x) implies exists|k: int| 0 <= k < all_nodes@.len() && (#[trigger] all_nodes@[k]).name == x by {
+                    let px = self.nodes_map@[x];
+                    if in_row(pr, px) {
+                        let j = choose|j: int| 0 <= j < pr.len() && (#[trigger] pr[j]).node_index == px;
+                        let i = choose|i: int| 0 <= i < mv.len() && (#[trigger] mv[i]).node_index == pr[j].node_index;
+                        assert(**all_nodes@[i] == *self.nodes_vec@[px as int]);
+                        assert(all_nodes@[i].name == x);
+                    } else {
+                        let j = choose|j: int| 0 <= j < sr.len() && (#[trigger] sr[j]).node_index == px;
+                        let i = choose|i: int| 0 <= i < mv.len() && (#[trigger] mv[i]).node_index == sr[j].node_index;
+                        assert(**all_nodes@[i] == *self.nodes_vec@[px as int]);
+                        assert(all_nodes@[i].name == x);
+                    }
+                }
+                assert(one_step_list(*self, node_name, all_nodes@));
+            }
         }
         let res: Result<Vec<&Arc<Node<T, A>>>, Error> = Ok(all_nodes);
         proof { assert(res.unwrap()@ == all_nodes@); }
@@ -1166,6 +1209,22 @@ let merged = vchain_sorted_dedup(pred_nodes, succ_nodes);
         // [C02.adjacency.neighbor_nodes_are_the_nodes_of_both_rows_each_once_by_position]
         // the nodes at the positions named by the predecessor row or the successor row of the node, in increasing position, each once
         self.knows(node_name) ==> r.is_ok() && exists|m: Seq<&AdjacentNode>| #[trigger] neighbors_listed(*self, self.nodes_map@[node_name], m, r.unwrap()@),
+        // [C02.adjacency.neighbor_nodes_are_the_one_step_nodes]
+        self.knows(node_name) && !self.specs.directed ==> one_step_list(*self, node_name, r.unwrap()@),
+//@ end
+
+//@ extract fn src/graph/query.rs get_successors_or_neighbors props=C02,C10,C20 ty=Graph
+//@ rewrite
+-> Vec<&Arc<Node<T, A>>>
+//@ with
+-> (r: Vec<&Arc<Node<T, A>>>)
+//@ spec
+    requires
+        self.wf_nodes(), self.wf_rows(), self.wf_index_members(),
+        self.knows(node_name),
+    ensures
+        // [C02.adjacency.successors_or_neighbors_lists_exactly_the_one_step_nodes]
+        one_step_list(*self, node_name, r@),
 //@ end
 
 //@ extract fn src/graph/query.rs get_node_by_index props=C02,C20 ty=Graph
